@@ -276,6 +276,10 @@ def dynamic_leg(run, budget_s, targets, exceptions):
                     stats["no_summary"] += 1
                     if "panic:" in r.get("stderr", "") or "fatal error:" in r.get("stderr", ""):
                         stats["crashed"] += 1
+                        if "first_crash" not in stats:
+                            e = r["stderr"]
+                            at = max(e.find("panic:"), e.find("fatal error:"), 0)
+                            stats["first_crash"] = {"idx": r["idx"], "stderr": e[at:at + 1500]}
                 for rc in races_of(r.get("stderr", ""), sites, repo_root):
                     stats["race_reports"] += 1
                     if rc.get("outside"):
@@ -378,6 +382,11 @@ def run(run):
                           "./check C17 --replay repeats it)" % (run.seed, rc["idx"], rc.get("target") or "all")}
         run.violation(key, payload, "data race reported by the Go race detector on %s between %s" % (
             fq or "library code", " and ".join(rc["funcs"])), False)
+
+    for kf in run.findings:
+        if kf["key"] and kf["key"].startswith("race:") and kf["key"] not in found:
+            run.notes.append("recorded finding %s was not hit by the race detector in this run (%d scenarios; schedule "
+                             "dependent - if it stays absent over thorough runs the entry is stale)" % (kf["key"], stats["scenarios"]))
 
     # static failures that the dynamic leg did not turn into a concrete race
     seen = set()
